@@ -87,6 +87,29 @@ pub fn short_inputs() -> Vec<String> {
         "*é",
         "&é",
         "- !é\n",
+        // 17..20 bytes (thorough sweeps all 2^(n-1) partitions of these too)
+        "- é: ü\n- 日: 本\n",
+        "a: é\r\nb: ü\r\nc: [\r\n",
+        "---\né: [ü]\n...\n",
+        "k: \"é\\t日\\n\"\nz: 1\n",
+        "é:\n  - ü\n  - 😀\n",
+        "a: 'é''ü'\nb: *x\n",
+        "- &a é\n- *a\n- *b\n",
+        "? é\n: ü\n? 日\n: x\n",
+        "a: |\n  é\nb: >\n z\n",
+        "{é: [ü, {日: 1}]}",
+        "- é # ü\n- 日\n-x\n",
+        "é: 1\né: 2\nü: [\n",
+        "---\n- é\n---\n- ü\n",
+        "%YAML 1.2\n---\né\n",
+        "a: !!str é\nb: !t",
+        "- [é,\n  日]\n- ]\n",
+        "a:\tb\n\tc: é\nd: ü\n",
+        "k: é\n...\n😀 [\n",
+        "- 😀😀\n- 😀:[\n",
+        "€€: €\n€: [\n",
+        "a\u{2028}b: é\nc\u{85}d: [\n",
+        "x: ~\ny: é\n--- ü\n",
         "\u{FEFF}",
         "é\u{FEFF}",
         "a: \u{FEFF}b\n",
@@ -122,6 +145,14 @@ pub fn hand_made() -> Vec<String> {
         "a: @b\n",
         "a: `b\n",
         "- ]\n",
+        // tags that are only a handle
+        "--- !!\n",
+        "a: !!\nb: 1\n",
+        "- !!\n- x\n",
+        "[!!, x]\n",
+        "k: !e!\n",
+        "a: 1\n...\n!!\n",
+        "- !\n- !t\n- !!str\n- !<x> y\n",
         // tabs
         "a:\t1\n",
         "a: 1\n\tb: 2\n",
@@ -301,6 +332,21 @@ pub fn random_document(rng: &mut Rng) -> String {
         out.push_str(brk);
     }
     out
+}
+
+/// A single document body (LF breaks, no stream decoration) for composing streams.
+pub fn random_body(rng: &mut Rng) -> String {
+    if rng.chance(1, 6) {
+        return rng.pick(&["plain", "12", "é", "\"q\"", "~", "[1, 2]", "{a: b}", "k: [", "'open", "- *nope"]).to_string();
+    }
+    let mut counter = 0;
+    let budget = rng.range(1, 10);
+    let mut t = treegen::random_tree(rng, budget, 3, GEN_LEAVES, &mut counter);
+    if rng.chance(1, 4) {
+        t.set_flow(true);
+    }
+    let ro = RenderOpts { indent: 2, brk: "\n", compact: rng.bool() };
+    ydoc::render(&t, &ro).text
 }
 
 /// Char-level mutation (the result is always valid UTF-8).
